@@ -213,6 +213,14 @@ func (r *Registry) checkManifest(repoName string, mediaType string, data []byte)
 // TODO currently this iterates through all tagged manifests. A better
 // algorithm could amortise that work and be considerably more efficient.
 func refersTo(repo *repository, iter descIter, digest ociregistry.Digest) (found bool, retErr error) {
+	return refersTo1(repo, iter, digest, make(map[ociregistry.Digest]bool))
+}
+
+// refersTo1 is the recursive part of refersTo. The visited map holds the
+// manifests that have been walked already: when manifests share
+// children, walking every path to them takes time exponential
+// in the depth of the graph.
+func refersTo1(repo *repository, iter descIter, digest ociregistry.Digest, visited map[ociregistry.Digest]bool) (found bool, retErr error) {
 	iter(func(info descInfo) bool {
 		if info.desc.Digest == digest {
 			found = true
@@ -221,9 +229,10 @@ func refersTo(repo *repository, iter descIter, digest ociregistry.Digest) (found
 		switch info.kind {
 		case kindManifest, kindSubjectManifest:
 			b := repo.manifests[info.desc.Digest]
-			if b == nil {
+			if b == nil || visited[info.desc.Digest] {
 				break
 			}
+			visited[info.desc.Digest] = true
 			// Note: interpret the manifest according to the media type it
 			// was stored with, not what the referring descriptor claims.
 			miter, err := manifestReferences(b.mediaType, b.data)
@@ -231,7 +240,7 @@ func refersTo(repo *repository, iter descIter, digest ociregistry.Digest) (found
 				retErr = err
 				return false
 			}
-			found, retErr = refersTo(repo, miter, digest)
+			found, retErr = refersTo1(repo, miter, digest, visited)
 			if found || retErr != nil {
 				return false
 			}
